@@ -5,7 +5,7 @@ from common import *
 import suite_wrapper as sw
 import check_wrapper as cw
 
-NTRACES = {'quick': 320, 'thorough': 6000}
+NTRACES = {'quick': 480, 'thorough': 7200}
 REQUIRED = {
     'C01': ['hit', 'load', 'miss', 'evict'], 'C02': ['hit', 'load', 'miss', 'evict'],
     'C05': ['overflow', 'purge', 'loadAll'], 'C06': ['evict', 'hit'], 'C07': ['evict', 'purge'],
@@ -44,6 +44,10 @@ def _analyse(prop, trs):
         tags.update(tg)
         if any(tg.get(t) for t in ('evict', 'purge', 'load', 'raise', 'keyfail')):
             nontrivial.add(hashlib.sha256(json.dumps([tr['cfg'], tr['ops']], sort_keys=True).encode()).hexdigest())
+        if prop in ('C16', 'C18'):
+            tv, ndrop = cw.twin_violations(prop, tr)
+            v = v + tv
+            if ndrop: tags['twin-run'] += 1
         for x in v:
             if x['prop'] == prop:
                 viols.append(dict(x, cfg=tr['cfg'], ops=tr['ops']))
@@ -103,6 +107,8 @@ def _still_fails(prop, cfg, sig):
         tr = sw.run_trace(cfg, ops)
         if tr['err']: return False
         v, _ = cw.monitor_trace(tr)
+        if prop in ('C16', 'C18'):
+            v = v + cw.twin_violations(prop, tr)[0]
         return any(x['prop'] == prop and x['sig'] == sig for x in v)
     return f
 
@@ -115,7 +121,6 @@ def shrink_and_save(prop, v):
     else:
         ops = v['ops']
     tr = sw.run_trace(cfg, ops)
-    vv, _ = cw.monitor_trace(tr)
     obj = dict(suite='wrapper', property=prop, cfg=cfg, ops=ops, signature=v['sig'], message=v['msg'],
                observed=[dict(op=r['op'], out=r['out'], mem=r['after']['mem'], arch=r['after']['arch'], stats=r['after']['stats']) for r in tr['recs']][-8:],
                keys=tr.get('keys'), how_to_replay='cd /verif && ./check %s --replay <this file>' % prop)
@@ -140,6 +145,8 @@ def search(prop, tier, divergences, budget_s, known):
         for tr in trs:
             if tr['err']: continue
             v, _ = cw.monitor_trace(tr)
+            if prop in ('C16', 'C18'):
+                v = v + cw.twin_violations(prop, tr)[0]
             for x in v:
                 if x['prop'] == prop and not verdict.match_known(prop, x['sig'], known):
                     return shrink_and_save(prop, dict(x, cfg=tr['cfg'], ops=tr['ops']))
